@@ -688,6 +688,13 @@ def verify_case(T, case, timeout_ms=None, want=None, exclude=None):
     """-> list[ObResult]; a contract that cannot be linked to the run (Unsupported raised while the
     postconditions are built, e.g. the code no longer computes the statistic the clause is phrased
     over) makes the whole case undecided - it is a limit of the contract, not a violation"""
+    # callee contracts stay bound while the obligations are built: comprehensions over symbolic sequences are
+    # answered lazily, so a call they contain may only happen then - it must meet the same callee as during
+    # the exploration
+    try:
+        undo_stubs = [T.stub(m, n, s_) for (m, n, s_) in case.stubs(T)] if not getattr(case, "is_lemma", False) else []
+    except Exception:  # noqa: BLE001
+        undo_stubs = []
     try:
         return _verify_case(T, case, timeout_ms, want, exclude)
     except C.Unsupported as e:
@@ -706,6 +713,9 @@ def verify_case(T, case, timeout_ms=None, want=None, exclude=None):
         ob.status = "undecided"
         ob.detail = "contract not applicable to this code (accident while building the obligations): %s" % acc
         return [ob]
+    finally:
+        for u_ in undo_stubs:
+            u_()
 
 
 def _verify_case(T, case, timeout_ms=None, want=None, exclude=None):
